@@ -83,6 +83,18 @@ def bodyS (s : Bool) (b : Term) : Bool := (SLD.conjuncts b).all (goalS s)
 def clauseS (s : Bool) (c : Term) : Bool :=
   wfT c && hornHead (SLD.headBody c).1 && bodyS s (SLD.headBody c).2
 
+/-- a head the compiler accepts (any name but the list and the clause functor) -/
+def headOK : Term → Bool
+  | .atom _ => true
+  | .app f as => decide (1 ≤ as.length) && f != "." && f != ":-"
+  | _ => false
+
+/-- a clause the compiler turns into one compiled clause, its body in the fragment: the clauses
+    of the program (`clauseS`: with a user predicate name), the clause `call/1` compiles, and the
+    control clauses of bootstrap.pl -/
+def clauseC (s : Bool) (c : Term) : Bool :=
+  wfT c && headOK (SLD.headBody c).1 && bodyS s (SLD.headBody c).2
+
 structure FragS (s : Bool) (prog : List Term) (query : Term) : Prop where
   clauses : ∀ c ∈ prog, clauseS s c = true
   goal : bodyS s query = true
@@ -470,40 +482,52 @@ structure HeadLayout (h : Term) (cl : Clause) (hargs : RepList) : Prop where
   name : cl.name = functorName h
   arity : cl.arity = (argList h).length
   args : (Rep.absArgs hargs).toList = argList h
-  user : userPred (functorName h) (argList h).length = true
-  horn : hornHead h = true
+  horn : headOK h = true
 
-theorem hornHead_toRep {h : Term} (hh : hornHead h = true) (hw : wfT h = true) :
-    CallableHead (toRep h) = true ∧ WF (toRep h) = true ∧
-    headName (toRep h) = functorName h ∧ (Rep.absArgs (headArgs (toRep h))).toList = argList h ∧
-    userPred (functorName h) (argList h).length = true ∧
-    (∀ x y, toRep h ≠ .compound ":-" (.cons x (.cons y .nil))) := by
+theorem headOK_of_horn {h : Term} (hh : hornHead h = true) : headOK h = true := by
   cases h with
-  | atom f =>
-    refine ⟨rfl, rfl, rfl, rfl, by simpa [hornHead, functorName, argList] using hh, by simp [toRep]⟩
+  | atom f => rfl
   | app f as =>
     have hu : userPred f as.length = true := by
       simp only [hornHead, Bool.and_eq_true] at hh; exact hh.2
     have hf : f ≠ "." := by rintro rfl; exact reserved_not_user hu (by decide)
     have hf2 : f ≠ ":-" := by rintro rfl; exact reserved_not_user hu (by decide)
+    simp only [hornHead, Bool.and_eq_true] at hh
+    simp [headOK, hh.1, hf, hf2]
+  | _ => simp [hornHead] at hh
+
+theorem clauseC_of_S {s : Bool} {c : Term} (h : clauseS s c = true) : clauseC s c = true := by
+  simp only [clauseS, clauseC, Bool.and_eq_true] at h ⊢
+  exact ⟨⟨h.1.1, headOK_of_horn h.1.2⟩, h.2⟩
+
+theorem hornHead_toRep {h : Term} (hh : headOK h = true) (hw : wfT h = true) :
+    CallableHead (toRep h) = true ∧ WF (toRep h) = true ∧
+    headName (toRep h) = functorName h ∧ (Rep.absArgs (headArgs (toRep h))).toList = argList h ∧
+    (∀ x y, toRep h ≠ .compound ":-" (.cons x (.cons y .nil))) := by
+  cases h with
+  | atom f =>
+    refine ⟨rfl, rfl, rfl, rfl, by simp [toRep]⟩
+  | app f as =>
+    simp only [headOK, Bool.and_eq_true, bne_iff_ne, ne_eq, decide_eq_true_eq] at hh
+    have hf : f ≠ "." := hh.1.2
+    have hf2 : f ≠ ":-" := hh.2
     rw [toRep_app_ne_dot _ _ hf]
-    refine ⟨rfl, ?_, rfl, by simp [headArgs, absArgs_toReps, argList], by simpa [functorName, argList] using hu,
-      by simp [hf2]⟩
+    refine ⟨rfl, ?_, rfl, by simp [headArgs, absArgs_toReps, argList], by simp [hf2]⟩
     have := toRep_wf _ hw
     rwa [toRep_app_ne_dot _ _ hf] at this
-  | _ => simp [hornHead] at hh
+  | _ => simp [headOK] at hh
 
 /-- **a rule of the fragment** compiles to one clause: head code, `enter`, the code of the body
     goals — which are the reference's conjuncts of the body — in order, `exit` -/
-theorem horn_rule_layout {s : Bool} (h b : Term) (hc : clauseS s (.app ":-" (.cons h (.cons b .nil))) = true) :
+theorem horn_rule_layout {s : Bool} (h b : Term) (hc : clauseC s (.app ":-" (.cons h (.cons b .nil))) = true) :
     ∃ cl hargs bops gs, compile (toRep (.app ":-" (.cons h (.cons b .nil)))) = .ok [cl] ∧
       HeadLayout h cl hargs ∧
       cl.code = headCode hargs {} ++ Op.enter :: (bops ++ [Op.exit]) ∧
       BodySem cl.vars bops gs ∧ gs.map goalTerm = SLD.conjuncts b ∧
       (∀ g ∈ gs, g = .atom "!" ∨ stepGoal s (goalTerm g) = true) := by
-  simp only [clauseS, SLD.headBody, Bool.and_eq_true, wfT, wfAs, Bool.and_true] at hc
+  simp only [clauseC, SLD.headBody, Bool.and_eq_true, wfT, wfAs, Bool.and_true] at hc
   obtain ⟨⟨⟨hwh, hwb⟩, hh⟩, hb⟩ := hc
-  obtain ⟨hch, hwfh, hname, hargs, huser, _⟩ := hornHead_toRep hh hwh
+  obtain ⟨hch, hwfh, hname, hargs, _⟩ := hornHead_toRep hh hwh
   have hwfb := toRep_wf b hwb
   have hrep : toRep (.app ":-" (.cons h (.cons b .nil))) =
       .compound ":-" (.cons (toRep h) (.cons (toRep b) .nil)) := by
@@ -525,13 +549,13 @@ theorem horn_rule_layout {s : Bool} (h b : Term) (hc : clauseS s (.app ":-" (.co
     obtain ⟨bops, hcode, hsem, hpre, hnd, hn, har⟩ :=
       rule_clause_layout (toRep h) (toRep b) [cl] hwfh hwfb hch hcomp 0 cl (toRep b) rfl (by rw [halt]; rfl)
     refine ⟨cl, headArgs (toRep h), bops, seqGoals (toRep b), rfl,
-      ⟨wfs_headArgs _ hwfh, hpre, hnd, by rw [hn, hname], ?_, hargs, huser, hh⟩, hcode, hsem, seqGoals_toRep b, ?_⟩
+      ⟨wfs_headArgs _ hwfh, hpre, hnd, by rw [hn, hname], ?_, hargs, hh⟩, hcode, hsem, seqGoals_toRep b, ?_⟩
     · rw [har, ← hargs, absArgs_toList_length]
     · intro g hg
       exact (bodyOK_goals b hb g hg).2
 
 /-- **a fact of the fragment** compiles to one clause: head code, `exit` -/
-theorem horn_fact_layout {s : Bool} (c : Term) (hc : clauseS s c = true)
+theorem horn_fact_layout {s : Bool} (c : Term) (hc : clauseC s c = true)
     (hne : ∀ h b, c ≠ .app ":-" (.cons h (.cons b .nil))) :
     ∃ cl hargs, compile (toRep c) = .ok [cl] ∧ HeadLayout c cl hargs ∧
       cl.code = headCode hargs {} ++ [Op.exit] := by
@@ -540,9 +564,9 @@ theorem horn_fact_layout {s : Bool} (c : Term) (hc : clauseS s c = true)
     split
     · exact absurd rfl (hne _ _)
     · rfl
-  simp only [clauseS, hhb, Bool.and_eq_true] at hc
+  simp only [clauseC, hhb, Bool.and_eq_true] at hc
   obtain ⟨⟨hw, hh⟩, _⟩ := hc
-  obtain ⟨hch, hwf, hname, hargs, huser, hne'⟩ := hornHead_toRep hh hw
+  obtain ⟨hch, hwf, hname, hargs, hne'⟩ := hornHead_toRep hh hw
   cases hcomp : compile (toRep c) with
   | error e =>
     exfalso
@@ -559,7 +583,7 @@ theorem horn_fact_layout {s : Bool} (c : Term) (hc : clauseS s c = true)
   | ok cs =>
     obtain ⟨cl, rfl, hcode, hvars, hnd, hn, har⟩ := fact_clause_layout (toRep c) cs hwf hch hne' hcomp
     refine ⟨cl, headArgs (toRep c), rfl,
-      ⟨wfs_headArgs _ hwf, by rw [hvars]; exact List.prefix_refl _, hnd, by rw [hn, hname], ?_, hargs, huser, hh⟩, hcode⟩
+      ⟨wfs_headArgs _ hwf, by rw [hvars]; exact List.prefix_refl _, hnd, by rw [hn, hname], ?_, hargs, hh⟩, hcode⟩
     rw [har, ← hargs, absArgs_toList_length]
 
 end PrologVerif.Refine
